@@ -3,8 +3,10 @@
 The specification predicts *terms* <<generator identity, time>>; the driver checks that the
 mapping term -> observed float is a function (across visiting orders, instances and behaviours
 replayed by this process) and that distinct times give the values of their own terms."""
+import copy
 import json
 import logging
+import pickle
 import zlib
 
 from harness.core import import_param
@@ -73,14 +75,29 @@ class System:
         self.objs = {}
         self.slot = {}
         used = {}
+        built = {}
+        parity = zlib.crc32(json.dumps(beh, sort_keys=True).encode()) // 7 % 2
         for s in sorted(gen, key=int):
             i = inst[s]
+            if i == 0:
+                # the class-level default generator of a fresh class, used through the class
+                g = make_gen(self.family, gen[s])
+                self.pc = type("PC", (param.Parameterized,), {"d": param.Number(default=g)})
+                self.slot[int(s)] = (self.pc, "d", gen[s])
+                continue
             if i not in self.objs:
                 self.objs[i] = P()
                 used[i] = 0
             pname = "ab"[used[i]]
             used[i] += 1
-            g = Counter() if gen[s] == "K" else make_gen(self.family, gen[s])
+            if gen[s] == "K":
+                g = Counter()
+            elif gen[s] in built:
+                # a second generator with the same name and seed is not constructed but obtained from the
+                # first by a deep copy or a pickle round trip (before the first was ever used)
+                g = copy.deepcopy(built[gen[s]]) if parity else pickle.loads(pickle.dumps(built[gen[s]]))
+            else:
+                g = built[gen[s]] = make_gen(self.family, gen[s])
             setattr(self.objs[i], pname, g)
             self.slot[int(s)] = (self.objs[i], pname, gen[s])
         self.cms = []
@@ -130,7 +147,7 @@ class System:
         else:
             obj, pname, _ = self.slot[a["s"]]
             if n == "read":
-                return getattr(obj, pname)
+                return getattr(obj, pname)      # (obj is the class itself for the class-level slot)
             if n == "inspect":
                 return obj.param.inspect_value(pname)
             if n == "force":
